@@ -684,6 +684,32 @@ def _twin_checks(ctx, env, G, ds, dnames, nodes, spec, rng, _value, sa_exc):
                     {"spec": spec, "node": i, "ops": [(m["parent"], m["op"]) for m in nodes], "dialect": dn,
                      "compiled_chain": n["value"][dn], "fresh_chain": got})
                 break
+        # (1b) pickling the never compiled twin must give a statement that compiles like the node
+        import pickle
+
+        try:
+            pk = pickle.loads(pickle.dumps(n["rebuild"]()))
+        except (G.Inapplicable, sa_exc.SQLAlchemyError):
+            pk = None
+        except Exception:
+            ctx.count("pickle_errors")
+            pk = None
+        if pk is not None:
+            ctx.count("pickle_roundtrips_uncompiled")
+            for dn in dnames:
+                got = _value(pk, ds[dn])
+                if got != n["value"][dn]:
+                    what = "sql" if got[0] != n["value"][dn][0] else "params"
+                    mech = f"copy-compiles-differently:pickle:{what}"
+                    if got[0] == "EXC-internal":
+                        mech = f"copy-compile-raises-internal-error:{got[1]}@{got[2]}"
+                    ctx.violation(
+                        mech,
+                        f"{dn}: pickle round trip of the never compiled twin of statement #{i} ({n['op']}) compiles to {got!r:.300}, "
+                        f"the statement itself to {n['value'][dn]!r:.300}",
+                        {"spec": spec, "node": i, "ops": [(m["parent"], m["op"]) for m in nodes], "dialect": dn,
+                         "original": n["value"][dn], "copy": got, "pickled": "never compiled twin"})
+                    break
         # (2) transforming copies: compiled original vs never compiled twin
         seed = rng.randrange(1 << 30)
         for tname, tf in _transformations(env, G, seed):
